@@ -804,6 +804,7 @@ func runC05(c *Ctx) {
 	clauseTreeBuilderParity(c, "C05.j")
 	clauseResetCoversDecodedFields(c, "C05.k")
 	clauseExistingDirReused(c, "C05.l")
+	clauseCleanNameViaPathClean(c, "C05.m")
 	c.assume("bolt transactions are isolated; json.Decoder reads through the TeeReader only")
 }
 
